@@ -227,6 +227,25 @@ func init() {
 				} else {
 					got, gerr = e.Eval(ctx)
 				}
+				if usesDNE && gerr == nil && valEq(got, res.Res) {
+					// the same with the DNE variables BOUND to the DNE value in one value map (the map form GenVariables
+					// consumes), through the library's own context over the registered keys
+					withDNE := map[string]interface{}{}
+					for kk, v := range vals {
+						withDNE[kk] = v
+					}
+					for _, d := range dnes {
+						withDNE[d.Expr] = eval.DNE
+					}
+					guarded(map[string]interface{}{"call": "TryEval (DNE-valued bindings)", "source": res.Expr}, func() {
+						defer func() {
+							if p := recover(); p != nil {
+								gerr = fmt.Errorf("panic: %v", p)
+							}
+						}()
+						got, gerr = e.TryEval(eval.NewCtxFromVars(conf, withDNE))
+					})
+				}
 				if gerr != nil || !valEq(got, res.Res) {
 					c.Direct = append(c.Direct, DirectViolation{What: fmt.Sprintf("generated expression evaluates to %v / %v but the generator reports %v", got, gerr, res.Res), Sig: "c20-value",
 						Sample: map[string]interface{}{"expr": clip(res.Expr, 400), "level": level}})
